@@ -810,17 +810,21 @@ func (c *Client) readResponseData(typ string) error {
 					return err
 				}
 
-				c.mutex.Lock()
-				if c.state == imap.ConnStateSelected {
-					c.mailbox = c.mailbox.copy()
-					c.mailbox.PermanentFlags = flags
-				}
-				c.mutex.Unlock()
-
 				if cmd := findPendingCmdByType[*SelectCommand](c); cmd != nil {
+					// The flags belong to the mailbox being selected, not
+					// to the currently selected mailbox (if any)
 					cmd.data.PermanentFlags = flags
-				} else if handler := c.options.unilateralDataHandler().Mailbox; handler != nil {
-					handler(&UnilateralDataMailbox{PermanentFlags: flags})
+				} else {
+					c.mutex.Lock()
+					if c.state == imap.ConnStateSelected {
+						c.mailbox = c.mailbox.copy()
+						c.mailbox.PermanentFlags = flags
+					}
+					c.mutex.Unlock()
+
+					if handler := c.options.unilateralDataHandler().Mailbox; handler != nil {
+						handler(&UnilateralDataMailbox{PermanentFlags: flags})
+					}
 				}
 			case "UIDNEXT":
 				var uidNext imap.UID
